@@ -124,8 +124,11 @@ namespace pika {
             if (joinable())
             {
                 // if not joined/detached, signal stop and wait for end:
+                PIKA_VERIF_POST("jt.dtor", &thread_, threads::detail::verif_self(), 0);
                 request_stop();
+                PIKA_VERIF_POST("jt.stop", &thread_, threads::detail::verif_self(), ssource_.stop_requested() ? 1 : 0);
                 join();
+                PIKA_VERIF_POST("jt.joined", &thread_, threads::detail::verif_self(), 0);
             }
         }
 
